@@ -30,7 +30,7 @@ def has (a : AdapterSt) (pt : String) (r : Rule) : Bool := a.lines.contains (pt,
 def addLine (a : AdapterSt) (pt : String) (r : Rule) : AdapterSt :=
   if a.has pt r then a else { a with lines := a.lines ++ [(pt, r)] }
 def removeLine (a : AdapterSt) (pt : String) (r : Rule) : AdapterSt :=
-  { a with lines := a.lines.filter (· != (pt, r)) }
+  { a with lines := a.lines.erase (pt, r) }     -- the first occurrence, as the harness adapter does
 def rulesOf (a : AdapterSt) (pt : String) : List Rule := (a.lines.filter (·.1 == pt)).map (·.2)
 
 /-- the harness adapter's filter: a missing field never matches -/
